@@ -1,5 +1,8 @@
 pub mod hist;
 pub mod c01;
+pub mod c03;
+pub mod c04;
+pub mod c15;
 pub mod kf;
 
 use crate::driver::Tier;
@@ -8,6 +11,9 @@ use serde_json::Value;
 pub fn run(id: &str, tier: Tier, seed: u64, replay: Option<Value>) -> i32 {
     match id {
         "C01" => hist::run(&c01::spec(), tier, seed, replay),
+        "C03" => hist::run(&c03::spec(), tier, seed, replay),
+        "C04" => hist::run(&c04::spec(), tier, seed, replay),
+        "C15" => hist::run(&c15::spec(), tier, seed, replay),
         _ => {
             eprintln!("unknown property {}", id);
             2
